@@ -286,12 +286,17 @@ func cmdCheck(args []string) int {
 		}
 		seenTag[key] = true
 		f := filepath.Join(vdir, "out", "replay", fmt.Sprintf("%s-%s-%d.json", id, vr.r.entry.Func, i))
+		if vr.r.entry.Concurrent {
+			// a schedule, not an input vector: written out for the reader, not replayed natively
+			os.WriteFile(f, []byte(fmt.Sprintf("{\"tag\": %q, \"schedule\": %q}\n", vr.v.Tag, vr.v.Where)), 0o644)
+			continue
+		}
 		writeReplay(f, vr.v.Tag, vr.v.Inputs, vr.r.params, vr.r.shard)
 		items = append(items, replayItem{entry: vr.r.entry, file: f, expect: vr.v.Tag, mode: vr.r.mode, vi: i})
 	}
 	witnessOf := map[string]bool{}
 	for i, r := range results {
-		if r.err != nil || len(r.samples) == 0 || witnessOf[r.entry.Func] {
+		if r.err != nil || len(r.samples) == 0 || witnessOf[r.entry.Func] || r.entry.Concurrent {
 			continue
 		}
 		if len(r.rep.Violations) > 0 && r.mode == "" {
@@ -389,6 +394,22 @@ func cmdCheck(args []string) int {
 		seenTag[key] = true
 		c := confirmed[i]
 		replayFile := filepath.Join(vdir, "out", "replay", fmt.Sprintf("%s-%s-%d.json", id, vr.r.entry.Func, i))
+		if vr.r.entry.Concurrent {
+			// the schedule has been re-run on the interpreted real code by the engine
+			if strings.HasPrefix(vr.v.Confirmed, "confirmed") {
+				fmt.Printf("VIOLATION property=%s replay=%s\n", id, replayFile)
+				fmt.Printf("  entry=%s tag=%q (%s); schedule:\n", vr.r.entry.Func, vr.v.Tag, vr.v.Confirmed)
+				for _, l := range strings.Split(vr.v.Where, "\n") {
+					fmt.Println("    " + l)
+				}
+				exit = 1
+				nviol++
+			} else {
+				fmt.Printf("UNCONFIRMED property=%s entry=%s tag=%q schedule=%s (%s)\n", id, vr.r.entry.Func, vr.v.Tag, replayFile, vr.v.Confirmed)
+				inconcl = append(inconcl, fmt.Sprintf("the interleaving found for %q did not reproduce when the schedule was re-run (%s)", vr.v.Tag, vr.v.Confirmed))
+			}
+			continue
+		}
 		if os.Getenv("VERIF_NOREPLAY") != "" {
 			c = "confirmed(no-replay)"
 		}
@@ -524,7 +545,7 @@ func runJob(ld *engine.Loaded, e Entry, shard int, mode string, params map[strin
 		switch cm.Stats.Result {
 		case "unsat":
 		case "sat":
-			rep.Violations = append(rep.Violations, engine.Violation{Tag: cm.BadTag, Inputs: map[string]uint64{}, Where: strings.Join(cm.Schedule, "\n"), Confirmed: "schedule"})
+			rep.Violations = append(rep.Violations, engine.Violation{Tag: cm.BadTag, Inputs: map[string]uint64{}, Where: strings.Join(cm.Schedule, "\n"), Confirmed: cm.Replayed})
 		default:
 			rep.Inconcl = append(rep.Inconcl, "concurrency analysis: "+cm.Stats.Result)
 		}
